@@ -508,7 +508,7 @@ where
                 // we are opening an existing file
                 Some(entry)
             }
-            Err(_)
+            Err(Error::NotFound)
                 if (mode == Mode::ReadWriteCreate)
                     | (mode == Mode::ReadWriteCreateOrTruncate)
                     | (mode == Mode::ReadWriteCreateOrAppend) =>
@@ -517,9 +517,11 @@ where
                 // asked us to create it
                 None
             }
-            _ => {
-                // We are opening a non-existant file, and that's not OK.
-                return Err(Error::NotFound);
+            Err(e) => {
+                // We are opening a non-existant file, and that's not OK - or
+                // the lookup itself failed, and then we must not create
+                // anything.
+                return Err(e);
             }
         };
 
